@@ -68,7 +68,7 @@ def one(ctx, data, meta=None, opts=pk.OPTS):
 
 def run(ctx):
     for f in stored_corpus('C01'): replay(ctx, json.load(open(f)))
-    n = 60 if ctx.quick else 4000
+    n = 60 if ctx.quick else 2000
     for pkg, meta, rng in stream(ctx, PROF, n):
         data = pkg.to_bytes()
         one(ctx, data, meta)
